@@ -892,7 +892,7 @@ func (d *Decoder) processPropertyElt(ectx evaluationContext, startElement xml.St
 						t := statement{
 							triple: rdf.Triple{
 								Subject:   ot.triple.Object.(rdf.SubjectValue), // definitely iri or blank node
-								Predicate: ectx.ResolveIRI(attr.Name.Space + attr.Name.Local),
+								Predicate: rdf.IRI(attr.Name.Space + attr.Name.Local),
 								Object:    lit,
 							},
 							containerResource: ectx.CurrentContainer,
